@@ -3,40 +3,54 @@
 spec  : ResultAlg.tla (SmoothAxis = AbstractSmoother.__call__ in exact rationals: kernel cut at the array ends and
         re-normalised row by row; SmoothAll = composition over the energy axes), MC_ResultAlgAxis.tla (one smoother along
         one axis: linear, constant preserving, along the axis only), MC_ResultAlgSmooth.tla (EnergyResult.dataSmooth as the
-        loop of the code with its cached_property cache and add(), against SmoothAll, order independence, Void identity)
-bind  : spec -> code: every TLC state is replayed: the real AbstractSmoother.__call__ (through a subclass whose _broaden
-        returns the integer kernel of the spec) and the real EnergyResult.dataSmooth / add() sequences, compared with the
-        rational values of the specification (tolerance 1e-9 on values of magnitude <= 10, observed deviation <= 1e-15)
+        loop of the code with its cached_property cache, add() and set_smoother(), against SmoothAll, order independence,
+        Void identity)
+bind  : spec -> code: TLC states are replayed: the real AbstractSmoother.__call__ (through a subclass whose _broaden
+        returns the integer kernel of the spec) and the real EnergyResult.dataSmooth / add() / set_smoother() sequences,
+        with real and with complex data, compared with the rational values of the specification (tolerance 1e-9 on values
+        of magnitude <= 30, observed deviation <= 1e-15)
         code -> spec: recorded real smoothing results on random integer data (scaled to integers by the common
-        denominator, integrality verified) and get_smoother answers, every clause evaluated by TLC (ResultAlgRec.tla)
-        numeric_only: real FermiDiracSmoother / GaussianSmoother against the Python transcription of SmoothAxis (itself
-        checked exactly against TLC on every replayed state) fed with their own kernel arrays
+        denominator, integrality verified) and the way the smoothers returned by get_smoother ACT, every clause
+        evaluated by TLC (ResultAlgRec.tla)
+        numeric_only: the real FermiDiracSmoother / GaussianSmoother as black boxes: response matrix M[:, j] = sm(e_j),
+        then rows sum to one, sm(A) = M applied along the axis (linear, along the axis only, complex data), dataSmooth of
+        a two-axis result = both response matrices applied
+
+Private names of the package are used through one adapter (_resultalg.int_kernel_smoother); when they are gone the
+exact-kernel sub-checks are skipped (parts.skipped_private), the black-box part remains.
 """
 import os
 import copy
 import math
+import glob
 import random
+import shutil
 from fractions import Fraction
+from concurrent.futures import ThreadPoolExecutor
 
 import numpy as np
 
 from .. import tlc, ftable
-from ..common import Report, MachineryError, seed
+from ..common import Report, MachineryError, seed, WORK
 from . import _resultalg as RA
 
 PROPS = {
     "C17": dict(level="model_checking",
                 technique="TLC exhaustive on ResultAlg.tla smoothing operators (MC_ResultAlgAxis: every kernel / shape / axis / unit and dense "
-                          "integer array; MC_ResultAlgSmooth: dataSmooth loop + cache + add() for every shape, rank, smoother assignment) + "
-                          "replay of every TLC state on the real AbstractSmoother.__call__ and EnergyResult.dataSmooth + TLC validation of "
-                          "recorded smoothing results",
+                          "integer array; MC_ResultAlgSmooth: dataSmooth loop + cache + add() + set_smoother() for every shape, rank, smoother "
+                          "assignment of the constants) + replay of the TLC states on the real AbstractSmoother.__call__ and "
+                          "EnergyResult.dataSmooth (real and complex data) + TLC validation of recorded smoothing results",
                 text="TLC checks in exact rationals that the loop of dataSmooth yields the composition of all axis smoothers, independent of "
-                     "the order, identity without smoothers, still true after add(), and that each smoother is linear, constant preserving and "
-                     "acts along its axis only; every state is executed on the real classes (integer-kernel subclass of AbstractSmoother, real "
-                     "EnergyResult) and compared to 1e-9; random real results are validated clause by clause by TLC; the real Fermi-Dirac and "
-                     "Gaussian smoothers are compared numerically with the specified operator fed with their own kernels.",
+                     "the order, identity without smoothers, still true after add() and after set_smoother(), and that each smoother is "
+                     "linear, constant preserving and acts along its axis only; every state of the axis model and every idle state of the "
+                     "dataSmooth model whose last event is a read is executed on the real classes (integer-kernel subclass of "
+                     "AbstractSmoother, real EnergyResult) and compared to 1e-9; random real results (built directly or through +, -, *, /, "
+                     "mul_array, transform; real or complex) are validated clause by clause by TLC; the real Fermi-Dirac and Gaussian "
+                     "smoothers are examined as black boxes through their response matrices (numeric_only).",
                 note="kernels are symmetric positive integer arrays (the weight of A[j] in res[i] is smt[NE1 + j - i], as in the code); energy "
-                     "grids are equidistant; the Fermi-Dirac / Gaussian part is numeric_only",
+                     "grids are equidistant and ascending (named predicate AscendingGrid; descending grids: observation); data are float / "
+                     "complex arrays (integer-typed arrays: observation); the shape of the Fermi-Dirac / Gaussian kernels is NOT checked (any "
+                     "kernel passes), that part is numeric_only; get_smoother is checked for how its result acts, not for class names",
                 ref="DESIGN.md 3.6"),
 }
 
@@ -44,14 +58,17 @@ BASE = "  InitStores <- SNone\n  Scalars <- SNone\n  Divisors <- SNone\n  Syms <
 REC_CFG = ("SPECIFICATION RecSpec\nCONSTANTS\n  Wrong = {}\n  InitStores <- RecSeq\n  Scalars <- RecNone\n  Divisors <- RecNone\n"
            "  Syms <- RecSeq\n  ActSyms <- RecNone\n  MaxOps = 0\nINVARIANT Report\nCHECK_DEADLOCK FALSE\n")
 TOL = 1e-9
+TLC_TIMEOUT = 3000
+REC_CHUNK = 250
 SMOOTH_INVS = ["SmoothObserved", "CacheFresh", "OrderIndependent", "VoidIdentity", "SmoothLinear"]
 AXIS_INVS = ["Linear", "ConstantPreserved", "AlongAxisOnly", "UnitKernelIdentity", "RowsNormalised"]
+BOLTZMANN_EV = 8.617333262e-5
 
 
-def scfg(wrong=(), shapes="ShapesA", ranks=(0, 1), kernels="KernelsA", maxadds=1):
+def scfg(wrong=(), shapes="ShapesA", ranks=(0, 1), kernels="KernelsA", maxadds=1, maxsets=1):
     return ("SPECIFICATION Spec17\nCONSTANTS\n" + "  Wrong = {" + ", ".join(f'"{w}"' for w in wrong) + "}\n" + BASE +
             f"  Shapes <- {shapes}\n  Ranks = {{{', '.join(map(str, ranks))}}}\n  Kernels <- {kernels}\n  MaxAdds = {maxadds}\n"
-            + "".join(f"INVARIANT {i}\n" for i in SMOOTH_INVS) + "CHECK_DEADLOCK FALSE\n")
+            f"  MaxSets = {maxsets}\n" + "".join(f"INVARIANT {i}\n" for i in SMOOTH_INVS) + "CHECK_DEADLOCK FALSE\n")
 
 
 def acfg(shapes="FullShapesA", kernels="KernelsA"):
@@ -67,12 +84,13 @@ def rat_to_frac(seq):
     return [Fraction(x[0], x[1]) for x in seq]
 
 
-def make_result(shape, rank, data, smo, energies=None):
+def make_result(shape, rank, data, smo, dtype=float):
+    """raises RA.PrivateGone when the integer kernels cannot be injected any more"""
     EnergyResult, KBandResult, ResultDict, VoidResult, ps = RA.wb()
     fs = tuple(shape) + (3,) * rank
     sm = [RA.int_kernel_smoother(k, n) for k, n in zip(smo, shape)]
     ident = ps.Transform()
-    return EnergyResult([np.arange(n, dtype=float) for n in shape], np.array(data, dtype=float).reshape(fs), smoothers=sm,
+    return EnergyResult([np.arange(n, dtype=float) for n in shape], np.array(data, dtype=dtype).reshape(fs), smoothers=sm,
                         transformTR=ident, transformInv=ident, rank=rank)
 
 
@@ -90,11 +108,38 @@ def common_den(smo, shape):
 
 
 def scaled_ints(arr, D):
+    """value * D as integers; the values themselves have to be multiples of 1/D within 1e-9 (relative to D: the float
+    error of value * D grows with D)"""
     v = np.asarray(arr, dtype=float).reshape(-1) * D
     r = np.rint(v)
-    if v.size and np.abs(v - r).max() > 1e-6:
+    if v.size and np.abs(v - r).max() > TOL * max(1, D):
         raise RA.NonIntegral(f"value * {D} is not integral: {v[:6]}")
     return [int(x) for x in r]
+
+
+def apply_matrix(M, A, axis):
+    """the linear map M applied along one axis of A"""
+    return np.moveaxis(np.tensordot(M, A, axes=(1, axis)), 0, axis)
+
+
+class Runs:
+    """names of TLC runs, unique per property and process (several checks may run at once)"""
+
+    def __init__(self, pid):
+        self.tag = f"{pid.lower()}p{os.getpid()}"
+        self.used = []
+
+    def name(self, part):
+        n = f"{part}_{self.tag}"
+        self.used.append(n)
+        return n
+
+    def cleanup(self):
+        for n in self.used:
+            for d in (os.path.join(WORK, "tlc", n), os.path.join(WORK, "records", n)):
+                shutil.rmtree(d, ignore_errors=True)
+            for d in glob.glob(os.path.join(WORK, "tlc", f"rec_{n}_*")):
+                shutil.rmtree(d, ignore_errors=True)
 
 
 class Found:
@@ -110,203 +155,384 @@ class Found:
     def flush(self, rep):
         for key, (n, det) in sorted(self.found.items()):
             rep.violation(key, dict(det, occurrences=n))
+        self.found = {}
+
+    def call(self, site, detail, f):
+        """a call of the package on an input of the specified domain: an exception of the package is a violation, the check
+        goes on with the next input.  Exceptions raised by the harness's own frames are not swallowed."""
+        try:
+            return True, f()
+        except (MachineryError, RA.PrivateGone):
+            raise
+        except Exception as ex:
+            where = RA.where_raised(ex)
+            if where == "harness":
+                raise
+            self.add(f"raises:{where}:{type(ex).__name__}", dict(detail, call=site, got=f"{type(ex).__name__}: {ex}"))
+            return False, None
 
 
 def classify_smooth(real, shape, rank, data, smo):
     """which wrong implementation explains a wrong dataSmooth (only used to name the violation)"""
-    fs = tuple(shape) + (3,) * rank
-    raw = np.array(data, dtype=float).reshape(fs)
-    only0 = RA.smooth_axis_py(list(smo[0]), fs, raw, 0) if len(smo[0]) else raw
-    if np.abs(np.asarray(real) - only0).max() <= TOL:
-        return "only_the_axis0_smoother_applied"
+    try:
+        fs = tuple(shape) + (3,) * rank
+        raw = np.array(data, dtype=float).reshape(fs)
+        only0 = RA.smooth_axis_py(list(smo[0]), fs, raw, 0) if len(smo[0]) else raw
+        if np.abs(np.real(np.asarray(real)) - only0).max() <= TOL:
+            return "only_the_axis0_smoother_applied"
+    except Exception:
+        pass
     return "wrong_values"
+
+
+def dev_of(got, exp):
+    got = np.asarray(got)
+    if got.shape != np.asarray(exp).shape:
+        return float("inf")
+    d = np.abs(got - exp)
+    return float(d.max()) if d.size and np.all(np.isfinite(d)) else (0.0 if not d.size else float("inf"))
 
 
 def check(pid, tier):
     rep = Report(pid, tier, "model_checking")
+    runs = Runs(pid)
+    found = Found()
+    try:
+        rc = _check(rep, found, runs, tier)
+    except Exception:
+        found.flush(rep)
+        if rep.violations:
+            try:
+                rep.finish()
+            except Exception:
+                pass
+        raise
+    if rc == 0:
+        runs.cleanup()
+    return rc
+
+
+def _check(rep, found, runs, tier):
     thorough = tier == "thorough"
     rng = random.Random(seed() * 7919 + 17)
     nprng = np.random.default_rng(seed() * 7919 + 17)
-    workers = int(os.environ.get("VERIF_TLC_WORKERS", "16"))
-    found = Found()
+    workers = int(os.environ.get("VERIF_TLC_WORKERS", "4"))
+    skipped = {}
     rep.rule("a case = one TLC state replayed on the real code: (kernel, array shape, axis, integer array) on AbstractSmoother.__call__, or "
-             "(energy shape, rank, smoother per axis, integer data, read/add sequence) on EnergyResult.dataSmooth; plus seeded random "
-             "recorded results validated by TLC; distinct by input")
-    rep.assume("kernels are positive symmetric integer arrays on equidistant energy grids with at least two points (one-point axes get the "
-               "VoidSmoother, as get_smoother does); data are small integers: float results are exact to ~1e-15, compared with 1e-9")
+             "(energy shape, rank, smoother per axis, integer data, read/add/set_smoother sequence) on EnergyResult.dataSmooth, each with real "
+             "and with complex data; plus seeded random recorded results validated by TLC; distinct by input")
+    rep.assume("kernels are positive symmetric integer arrays on equidistant ascending energy grids with at least two points (one-point "
+               "axes get the VoidSmoother, as get_smoother does); data are small integers in float / complex arrays: float results are exact "
+               "to ~1e-15, compared with 1e-9")
     RA.wb()
-    from wannierberri.smoother import VoidSmoother, FermiDiracSmoother, GaussianSmoother, get_smoother
+    from wannierberri.smoother import FermiDiracSmoother, GaussianSmoother, get_smoother
+
+    # is the private protocol through which the integer kernels are injected still there?
+    exact = True
+    try:
+        RA.int_kernel_smoother([1, 2, 1], 3)
+    except RA.PrivateGone as ex:
+        exact = False
+        skipped["integer_kernel_injection"] = f"{ex} -> the replay of the TLC states and the smooth / axis records are skipped"
 
     # ---------------- one smoother along one axis
-    st = ftable.enumerate_states("MC_ResultAlgAxis.tla", acfg("FullShapesB", "KernelsB") if thorough else acfg(), "c17_axis", workers=workers, timeout=3000)
+    st = ftable.enumerate_states("MC_ResultAlgAxis.tla", acfg("FullShapesB", "KernelsB") if thorough else acfg(), runs.name("c17_axis"), workers=workers,
+                                 timeout=TLC_TIMEOUT)
     ftable.spec_violation(rep, st, "c17_axis")
     rep.add_tlc("c17_axis", st)
     states = RA.fast_parse_dump(st["dump_path"])
     if len(states) != st["distinct"] or not states:
         raise MachineryError(f"c17_axis: dump has {len(states)} states, TLC reported {st['distinct']}")
+    states.sort(key=lambda s: (tuple(s["fs"]), tuple(s["k"]), s["a"], tuple(s["x"])))
     maxdev = 0.0
     naxis = 0
     for s in states:
-        fs, k, a, x = tuple(s["fs"]), list(s["k"]), s["a"] - 1, s["x"]
+        fs, k, a, x, y = tuple(s["fs"]), list(s["k"]), s["a"] - 1, s["x"], s["y"]
         exp = rat_to_float(s["sx"]).reshape(fs)
         # the Python transcription of the specification must agree exactly with TLC
         mirror = RA.smooth_axis_py(k, fs, RA.frac_array(x, fs), a)
         if [Fraction(v) for v in mirror.reshape(-1)] != rat_to_frac(s["sx"]):
             raise MachineryError(f"Python transcription of SmoothAxis disagrees with TLC for {fs, k, a}")
+        if not exact:
+            continue
         sm = RA.int_kernel_smoother(k, fs[a])
         arr = np.array(x, dtype=float).reshape(fs)
-        got = sm(arr, axis=a)
+        yarr = np.array(y, dtype=float).reshape(fs)
+        det = dict(full_shape=fs, kernel=k, axis=a, x=list(x))
         rep.case(("axis", fs, tuple(k), a, tuple(x)), nontrivial=len(k) > 1)
         naxis += 1
-        dev = float(np.abs(got - exp).max()) if got.shape == exp.shape else float("inf")
-        maxdev = max(maxdev, dev if dev < 1 else 0.0)
-        if dev > TOL:
-            found.add("AbstractSmoother.__call__:wrong_values", dict(full_shape=fs, kernel=k, axis=a, x=list(x), expected=exp.reshape(-1).tolist(),
-                                                                     got=np.asarray(got).reshape(-1).tolist()))
+        ok, got = found.call("AbstractSmoother.__call__(A, axis)", det, lambda: sm(arr, axis=a))
+        if ok:
+            dev = dev_of(got, exp)
+            maxdev = max(maxdev, dev if dev < 1 else 0.0)
+            if dev > TOL:
+                found.add("AbstractSmoother.__call__:wrong_values", dict(det, expected=exp.reshape(-1).tolist(), got=np.asarray(got).reshape(-1).tolist()))
+        # complex data: real and imaginary part are smoothed alike
+        expc = exp + 1j * np.array(RA.smooth_axis_py(k, fs, yarr, a), dtype=float)
+        ok, gotc = found.call("AbstractSmoother.__call__(complex A, axis)", det, lambda: sm(arr + 1j * yarr, axis=a))
+        if ok:
+            dev = dev_of(gotc, expc)
+            maxdev = max(maxdev, dev if dev < 1 else 0.0)
+            if dev > TOL:
+                found.add("AbstractSmoother.__call__:wrong_values_complex_data",
+                          dict(det, y=list(y), expected_imag=expc.imag.reshape(-1).tolist(), got=[str(v) for v in np.asarray(gotc).reshape(-1)]))
         if naxis <= 2:
             rep.sample(dict(fn="AbstractSmoother.__call__", full_shape=fs, kernel=k, axis=a, x=list(x), expected=[list(v) for v in s["sx"]]))
     os.remove(st["dump_path"])
+    found.flush(rep)
 
-    # ---------------- dataSmooth: loop, cache, add()
-    cfg = scfg(shapes="ShapesB", ranks=(0, 1), kernels="KernelsA", maxadds=1) if thorough else scfg(kernels="KernelsQ")
-    st = ftable.enumerate_states("MC_ResultAlgSmooth.tla", cfg, "c17_smooth", workers=workers, timeout=3000)
+    # ---------------- dataSmooth: loop, cache, add(), set_smoother()
+    cfg = scfg(shapes="ShapesB", ranks=(0, 1), kernels="KernelsQ") if thorough else scfg(shapes="ShapesQ", kernels="KernelsQ")
+    st = ftable.enumerate_states("MC_ResultAlgSmooth.tla", cfg, runs.name("c17_smooth"), workers=workers, timeout=TLC_TIMEOUT)
     ftable.spec_violation(rep, st, "c17_smooth")
-    tlc.check_not_vacuous(st, ["ReadCached", "ReadStart", "LoopStep", "LoopEnd", "AddInPlaceData"], "c17_smooth")
+    tlc.check_not_vacuous(st, ["ReadCached", "ReadStart", "LoopStep", "LoopEnd", "AddInPlaceData", "SetSmoother"], "c17_smooth")
     rep.add_tlc("c17_smooth", st)
     states = RA.fast_parse_dump(st["dump_path"])
     if len(states) != st["distinct"]:
         raise MachineryError(f"c17_smooth: dump has {len(states)} states, TLC reported {st['distinct']}")
+    states.sort(key=lambda s: (tuple(s["shape"]), s["rank"], tuple(map(tuple, s["smo0"])), tuple(s["data"]), tuple(s["log"]), s["pc"], s["ax"]))
     classes = {}
+    nreplayed = 0
     for s in states:
         if s["pc"] != "idle" or s["obs"] == () or not s["log"] or s["log"][-1] != "read":
             continue
-        shape, rank, smo, log = tuple(s["shape"]), s["rank"], [list(k) for k in s["smo"]], list(s["log"])
+        nreplayed += 1
+        shape, rank, log = tuple(s["shape"]), s["rank"], list(s["log"])
+        smo0, smo_now = [list(k) for k in s["smo0"]], [list(k) for k in s["smo"]]
         fs = shape + (3,) * rank
         # data at the start of the behaviour = current data minus the added array for every add in the log
         nadd = log.count("add")
         data0 = [d - nadd * bb for d, bb in zip(s["data"], s["b"])]
-        r = make_result(shape, rank, data0, smo)
-        other = make_result(shape, rank, s["b"], smo)
-        reads = []
-        for op in log:
-            if op == "read":
-                reads.append(np.array(r.dataSmooth, dtype=float, copy=True))
-            else:
-                r.add(other)
         exp = rat_to_float(s["obs"][0]).reshape(fs)
-        got = reads[-1]
-        cls = ("two_axes" if sum(1 for k in smo if len(k)) >= 2 else "one_axis" if any(len(k) for k in smo) else "void") + \
-              ("+add_after_read" if "add" in log and log.index("add") > 0 else "+add" if "add" in log else "")
+        has_set = "set" in log
+        cls = ("two_axes" if sum(1 for k in smo0 if len(k)) >= 2 else "one_axis" if any(len(k) for k in smo0) else "void") + \
+              ("+add_after_read" if "add" in log and "read" in log[:log.index("add")] else "+add" if "add" in log else "") + \
+              ("+set_after_read" if has_set and "read" in log[:log.index("set")] else "+set" if has_set else "")
         classes[cls] = classes.get(cls, 0) + 1
-        rep.case(("smooth", shape, rank, tuple(map(tuple, smo)), tuple(data0), tuple(log)), nontrivial=any(len(k) > 1 for k in smo))
-        dev = float(np.abs(got - exp).max()) if got.shape == exp.shape else float("inf")
-        if dev <= TOL:
-            maxdev = max(maxdev, dev)
+        if not exact:
             continue
-        det = dict(energy_shape=shape, rank=rank, smoothers=smo, data=data0, added=list(s["b"]) if nadd else None, sequence=log,
-                   expected=exp.reshape(-1).tolist(), got=got.reshape(-1).tolist(), max_deviation=dev,
-                   how="EnergyResult(Energies=[arange(n)..], data, smoothers=[integer-kernel AbstractSmoother subclass per axis]); 'read' = .dataSmooth, 'add' = .add(other)")
-        last_add = max((i for i, op in enumerate(log) if op == "add"), default=-1)
-        nbefore = log[:last_add].count("read") if last_add >= 0 else 0          # reads made before the last add()
-        if nbefore and any(s["b"]) and any(np.array_equal(reads[-1], r0) for r0 in reads[:nbefore]):
-            found.add("EnergyResult.dataSmooth:stale_after_add", det)
-        else:
-            found.add("EnergyResult.dataSmooth:" + classify_smooth(got, shape, rank, s["data"], smo), det)
-    for need in ("two_axes", "one_axis", "void", "two_axes+add_after_read", "one_axis+add"):
-        if not classes.get(need):
-            raise MachineryError(f"c17_smooth: no replayed case of class {need}: {classes}")
-    rep.part("c17_smooth", replayed_per_class=classes)
+        for factor, tag in ((1.0, "real"), (1 + 2j, "complex")):
+            rep.case(("smooth", tag, shape, rank, tuple(map(tuple, smo0)), tuple(data0), tuple(log)), nontrivial=any(len(k) > 1 for k in smo0 + smo_now))
+            det = dict(energy_shape=shape, rank=rank, smoothers=smo0, smoothers_set=smo_now if has_set else None, data=data0,
+                       added=list(s["b"]) if nadd else None, sequence=log, data_factor=str(factor),
+                       how="EnergyResult(Energies=[arange(n)..], data * data_factor, smoothers=[integer-kernel AbstractSmoother subclass per axis]); "
+                           "'read' = .dataSmooth, 'add' = .add(other), 'set' = .set_smoother(smoothers_set)")
+
+            def run_log():
+                dt = float if factor == 1.0 else complex
+                r = make_result(shape, rank, [d * factor for d in data0], smo0, dtype=dt)
+                other = make_result(shape, rank, [d * factor for d in s["b"]], smo0, dtype=dt)
+                reads = []
+                for op in log:
+                    if op == "read":
+                        reads.append(np.array(r.dataSmooth, copy=True))
+                    elif op == "add":
+                        r.add(other)
+                    else:
+                        r.set_smoother([RA.int_kernel_smoother(k, n) for k, n in zip(smo_now, shape)])
+                return reads
+            ok, reads = found.call("EnergyResult.dataSmooth / add / set_smoother", det, run_log)
+            if not ok:
+                continue
+            got = reads[-1]
+            dev = dev_of(got, exp * factor)
+            if dev <= TOL * 3:
+                maxdev = max(maxdev, dev)
+                continue
+            det.update(expected=[str(v) for v in (exp * factor).reshape(-1)], got=[str(v) for v in np.asarray(got).reshape(-1)], max_deviation=dev)
+            last_mut = max((i for i, op in enumerate(log) if op in ("add", "set")), default=-1)
+            nbefore = log[:last_mut].count("read") if last_mut >= 0 else 0          # reads made before the last add() / set_smoother()
+            if nbefore and any(g.shape == got.shape and np.array_equal(got, g) for g in reads[:nbefore]):
+                found.add("EnergyResult.dataSmooth:stale_after_" + ("add" if log[last_mut] == "add" else "set_smoother"), det)
+            else:
+                found.add("EnergyResult.dataSmooth:" + classify_smooth(np.asarray(got) / factor, shape, rank, s["data"], smo_now), det)
+    need = ("two_axes", "one_axis", "void", "two_axes+add_after_read", "one_axis+add", "two_axes+set_after_read", "one_axis+set", "void+set_after_read")
+    for n_ in need:
+        if not classes.get(n_):
+            raise MachineryError(f"c17_smooth: no replayed case of class {n_}: {classes}")
+    rep.part("c17_smooth", replayed_states=nreplayed if exact else 0, replayed_per_class=classes if exact else {}, data="real and complex (x (1+2j))")
     rep.part("c17_axis", replayed=naxis, max_deviation_observed=maxdev)
     os.remove(st["dump_path"])
+    found.flush(rep)
 
     # ---------------- sensitivity: the plausible wrong implementations must be rejected by TLC
+    def one(wrong):
+        return wrong, tlc.run_tlc("MC_ResultAlgSmooth.tla", scfg(wrong=(wrong,), shapes="ShapesW", ranks=(0,), kernels="KernelsQ"),
+                                  runs.name(f"c17_wrong_{wrong}"), workers=1, timeout=TLC_TIMEOUT, coverage=False)
+    with ThreadPoolExecutor(max_workers=3) as ex:
+        res = list(ex.map(one, ("selfdata", "stalecache", "stalesmoother")))
     sens = {}
-    for wrong in ("selfdata", "stalecache"):
-        st0 = tlc.run_tlc("MC_ResultAlgSmooth.tla", scfg(wrong=(wrong,), shapes="ShapesW", ranks=(0,)), f"c17_wrong_{wrong}", workers=4, timeout=900)
+    for wrong, st0 in res:
+        if st0.get("timeout"):
+            raise MachineryError(f"sensitivity run Wrong={{{wrong}}} timed out")
         if not st0.get("violation"):
-            raise MachineryError(f"sensitivity self-test failed: MC_ResultAlgSmooth with Wrong={{{wrong}}} should violate an invariant")
+            raise MachineryError(f"sensitivity self-test failed: MC_ResultAlgSmooth with Wrong={{{wrong}}} should violate an invariant "
+                                 f"({st0.get('error') or 'no violation'})")
         sens[wrong] = st0["violation"][1]
     rep.part("sensitivity", rejected=sens)
 
     # ---------------- code -> spec : recorded results
     KCAT = [[], [1], [1, 2, 1], [1, 1, 1], [1, 2, 4, 2, 1], [1, 3, 1], [2, 3, 5, 3, 2], [1, 1, 2, 3, 2, 1, 1]]
+    syms = RA.real_syms()
     recs = []
+    aux = {}                  # record index -> call details that TLC does not need (floats, None)
     nrec = 500 if thorough else 120
+    attempts = 0
     while len(recs) < nrec:
+        attempts += 1
+        if attempts > 40 * nrec:
+            raise MachineryError("record generation does not terminate")
         r_ = rng.random()
         if r_ < 0.45:
-            nax = rng.choice([1, 2, 2, 2, 3])
-            shape = tuple(rng.randint(1, 5) for _ in range(nax))
-            rank = rng.choice([0, 0, 1, 2]) if nax < 3 else 0
-            smo = [rng.choice(KCAT) if n >= 2 else [] for n in shape]
-            D = common_den(smo, shape)
-            if D * 20 >= 2 ** 31 or int(np.prod(shape)) * 3 ** rank > 80:
-                continue
-            data = [rng.randint(-9, 9) for _ in range(int(np.prod(shape)) * 3 ** rank)]
-            # the result is built directly or comes out of +, * or transform (which have to carry the smoothers along)
-            how = rng.choice(["plain", "plain", "sum", "scaled", "transformed"])
-            if how == "sum":
-                part = [rng.randint(-9, 9) for _ in data]
-                res = make_result(shape, rank, part, smo) + make_result(shape, rank, [d - q for d, q in zip(data, part)], smo)
-            elif how == "scaled":
-                data = [2 * d for d in data]
-                res = make_result(shape, rank, [d // 2 for d in data], smo) * 2
-            elif how == "transformed":
-                res = make_result(shape, rank, data, smo).transform(RA.real_syms()["Identity"])
+            if not exact:
+                r_ = 0.9
             else:
-                res = make_result(shape, rank, data, smo)
-            try:
-                out = scaled_ints(res.dataSmooth, D)
-            except RA.NonIntegral as ex:
-                found.add("EnergyResult.dataSmooth:non-integral projection", dict(energy_shape=shape, rank=rank, smoothers=smo, data=data, got=str(ex)))
-                continue
-            recs.append(dict(fn="smooth", shape=list(shape), rank=rank, smo=smo, data=data, D=D, out=out, built=how))
-        elif r_ < 0.85:
-            fs = tuple(rng.randint(1, 5) for _ in range(rng.randint(1, 3)))
-            cand = [a for a in range(len(fs)) if fs[a] >= 2]
-            if not cand or int(np.prod(fs)) > 60:
-                continue
-            a = rng.choice(cand)
-            k = rng.choice(KCAT[1:])
-            D = math.lcm(*row_sums(k, fs[a]))
-            n = int(np.prod(fs))
-            x = [rng.randint(-9, 9) for _ in range(n)]
-            y = [rng.randint(-9, 9) for _ in range(n)]
-            c = rng.choice([-5, 1, 7])
-            sm = RA.int_kernel_smoother(k, fs[a])
-            ax = np.array(x, dtype=float).reshape(fs)
-            ay = np.array(y, dtype=float).reshape(fs)
-            try:
-                recs.append(dict(fn="axis", fs=list(fs), a=a + 1, k=k, D=D, x=x, y=y, c=c, sx=scaled_ints(sm(ax, axis=a), D),
-                                 sy=scaled_ints(sm(ay, axis=a), D), sxy=scaled_ints(sm(ax + ay, axis=a), D),
-                                 s2x=scaled_ints(sm(2 * ax, axis=a), D), sc=scaled_ints(sm(np.full(fs, float(c)), axis=a), D)))
-            except RA.NonIntegral as ex:
-                found.add("AbstractSmoother.__call__:non-integral projection", dict(full_shape=fs, kernel=k, axis=a, x=x, got=str(ex)))
-                continue
-        else:
+                nax = rng.choice([1, 2, 2, 2, 3])
+                shape = tuple(rng.randint(1, 5) for _ in range(nax))
+                rank = rng.choice([0, 0, 1, 2]) if nax < 3 else 0
+                smo = [rng.choice(KCAT) if n >= 2 else [] for n in shape]
+                D = common_den(smo, shape)
+                size = int(np.prod(shape)) * 3 ** rank
+                cplx = rng.random() < 0.35
+                how = rng.choice(["plain", "plain", "sum", "diff", "scaled", "div", "transformed", "mul_array"])
+                ints = lambda: [rng.randint(-9, 9) for _ in range(size)]
+                re_, im_, re2, im2 = ints(), ints(), ints(), ints()
+                if D * 64 >= 2 ** 31 or size > 80:
+                    continue
+                dt = complex if cplx else float
+                val = lambda a, b: [x + 1j * y for x, y in zip(a, b)] if cplx else list(a)
+                det = dict(energy_shape=shape, rank=rank, smoothers=smo, built=how, complex_data=cplx, data_re=re_, data_im=im_ if cplx else None)
+
+                def build():
+                    # the result is built directly or comes out of an operator (which has to carry the smoothers along)
+                    if how == "sum":
+                        return make_result(shape, rank, val(re_, im_), smo, dt) + make_result(shape, rank, val(re2, im2), smo, dt)
+                    if how == "diff":
+                        return make_result(shape, rank, val(re_, im_), smo, dt) - make_result(shape, rank, val(re2, im2), smo, dt)
+                    if how == "scaled":
+                        return make_result(shape, rank, val(re_, im_), smo, dt) * 2
+                    if how == "div":
+                        return make_result(shape, rank, val([2 * v for v in re_], [2 * v for v in im_]), smo, dt) / 2
+                    if how == "transformed":
+                        return make_result(shape, rank, val(re_, im_), smo, dt).transform(syms["C4z" if rank > 0 else "Identity"])
+                    if how == "mul_array":
+                        return make_result(shape, rank, val(re_, im_), smo, dt).mul_array(np.array([float((q % 3) - 1) for q in range(shape[0])]), axes=0)
+                    return make_result(shape, rank, val(re_, im_), smo, dt)
+                ok, res = found.call(f"EnergyResult built by `{how}`", det, build)
+                if not ok:
+                    continue
+                ok, pair = found.call("EnergyResult.data / dataSmooth", det, lambda: (np.array(res.data, copy=True), np.array(res.dataSmooth, copy=True)))
+                if not ok:
+                    continue
+                raw, sm_out = pair
+                try:
+                    # the raw data of the result as it is (whether the operator computed them correctly is C16's business)
+                    data = scaled_ints(np.real(raw), 1)
+                    datai = scaled_ints(np.imag(raw), 1)
+                    if raw.shape != tuple(shape) + (3,) * rank or sm_out.shape != raw.shape:
+                        raise RA.NonIntegral(f"shape of data {raw.shape} / dataSmooth {sm_out.shape}")
+                    out = scaled_ints(np.real(sm_out), D)
+                    outi = scaled_ints(np.imag(sm_out), D)
+                except RA.NonIntegral as ex:
+                    found.add("EnergyResult.dataSmooth:non-integral projection", dict(det, got=str(ex)))
+                    continue
+                if D * (max(map(abs, data + datai)) + 1) >= 2 ** 31:
+                    continue
+                rec = dict(fn="smooth", shape=list(shape), rank=rank, smo=smo, data=data, D=D, out=out, built=how)
+                if cplx:
+                    rec.update(datai=datai, outi=outi)
+                elif any(outi) or any(datai):
+                    found.add("EnergyResult.dataSmooth:imaginary part from real data", dict(det))
+                    continue
+                recs.append(rec)
+        if 0.45 <= r_ < 0.85:
+            if not exact:
+                r_ = 0.9
+            else:
+                fs = tuple(rng.randint(1, 5) for _ in range(rng.randint(1, 3)))
+                cand = [a for a in range(len(fs)) if fs[a] >= 2]
+                if not cand or int(np.prod(fs)) > 60:
+                    continue
+                a = rng.choice(cand)
+                k = rng.choice(KCAT[1:])
+                D = math.lcm(*row_sums(k, fs[a]))
+                n = int(np.prod(fs))
+                x = [rng.randint(-9, 9) for _ in range(n)]
+                y = [rng.randint(-9, 9) for _ in range(n)]
+                c = rng.choice([-5, 1, 7])
+                sm = RA.int_kernel_smoother(k, fs[a])
+                ax = np.array(x, dtype=float).reshape(fs)
+                ay = np.array(y, dtype=float).reshape(fs)
+                det = dict(full_shape=fs, kernel=k, axis=a, x=x)
+                ok, outs = found.call("AbstractSmoother.__call__", det, lambda: [sm(ax, axis=a), sm(ay, axis=a), sm(ax + ay, axis=a), sm(2 * ax, axis=a),
+                                                                                 sm(np.full(fs, float(c)), axis=a)])
+                if not ok:
+                    continue
+                try:
+                    if any(np.asarray(o).shape != fs for o in outs):
+                        raise RA.NonIntegral(f"shapes {[np.asarray(o).shape for o in outs]} for input {fs}")
+                    sx, sy, sxy, s2x, sc = [scaled_ints(o, D) for o in outs]
+                except RA.NonIntegral as ex:
+                    found.add("AbstractSmoother.__call__:non-integral projection", dict(det, got=str(ex)))
+                    continue
+                recs.append(dict(fn="axis", fs=list(fs), a=a + 1, k=k, D=D, x=x, y=y, c=c, sx=sx, sy=sy, sxy=sxy, s2x=s2x, sc=sc))
+        if r_ >= 0.85:
+            # how does the smoother that get_smoother returns act?  (documented modes only; no class names)
             hasE = rng.random() < 0.85
             ne = rng.choice([0, 1, 2, 3, 7])
-            smear = rng.choice(["none", "nonpos", "pos"])
-            mode = rng.choice(["None", "Fermi-Dirac", "Gaussian", "Lorentzian"])
+            smear = rng.choice(["none", "nonpos", "pos", "pos"])
+            mode = rng.choice(["Fermi-Dirac", "Gaussian"])
+            wide = rng.random() < 0.6
+            desc = ne >= 2 and rng.random() < 0.1
             energy = np.linspace(-1., 1., ne) if hasE else None
-            sval = None if smear == "none" else rng.choice([0., -3.]) if smear == "nonpos" else rng.choice([50., 300., 0.2])
+            if desc and hasE:
+                energy = energy[::-1].copy()
+            dE = 2.0 / (ne - 1) if ne >= 2 else 1.0
+            if smear == "none":
+                sval = None
+            elif smear == "nonpos":
+                sval = rng.choice([0., -3.])
+            elif wide:
+                sval = 4 * dE if mode == "Gaussian" else 4 * dE / BOLTZMANN_EV          # kernel half-width of ~32 grid steps
+            else:
+                sval = rng.choice([50., 300., 0.2])
+            nn = ne if hasE else 3
+            det = dict(energy=None if energy is None else energy.tolist(), smear=sval, mode=mode)
+
+            def acts():
+                sm = get_smoother(energy, sval, mode)
+                M = np.asarray(RA.response_matrix(sm, nn))
+                if M.shape != (nn, nn) or not np.all(np.isfinite(M)):
+                    return "not finite" if M.shape == (nn, nn) else f"shape {M.shape}"
+                return "identity" if np.array_equal(M, np.eye(nn)) else "smoothing"
             try:
-                got = type(get_smoother(energy, sval, None if mode == "None" else mode)).__name__
-            except ValueError:
-                got = "ValueError"
+                got = acts()
+            except MachineryError:
+                raise
             except Exception as ex:
-                got = type(ex).__name__
-            recs.append(dict(fn="getsm", hasE=hasE, ne=ne, smear=smear, mode=mode, got=got))
+                if RA.where_raised(ex) == "harness":
+                    raise
+                got = "raises"
+                det["exception"] = f"{type(ex).__name__}: {ex}"
+            aux[len(recs)] = det
+            recs.append(dict(fn="getsm", hasE=hasE, ne=ne, smear=smear, mode=mode, wide=bool(wide and smear == "pos"), dEsign=-1 if (desc and hasE) else 1,
+                             got=got))
         rep.case(("rec", len(recs), recs[-1]["fn"]))
-    stv, bad = ftable.validate_records("ResultAlgRec.tla", REC_CFG, recs, "c17")
+    found.flush(rep)
+    stv, bad = ftable.validate_records("ResultAlgRec.tla", REC_CFG, recs, runs.name("c17"), chunk=REC_CHUNK, timeout=TLC_TIMEOUT)
     rep.add_tlc("c17_records", stv)
-    rep.add_traces(len(recs))
     per = {}
     for r_ in recs:
         per[r_["fn"]] = per.get(r_["fn"], 0) + 1
-    if min(per.get(f, 0) for f in ("smooth", "axis", "getsm")) == 0:
+    # records that bind the stated property (smooth / axis); the get_smoother records are counted apart
+    rep.add_traces(per.get("smooth", 0) + per.get("axis", 0))
+    if exact and min(per.get(f, 0) for f in ("smooth", "axis", "getsm")) == 0:
         raise MachineryError(f"record classes missing: {per}")
-    rep.part("records", per_class=per)
+    if exact and not any(r_["fn"] == "smooth" and "outi" in r_ for r_ in recs):
+        raise MachineryError("no smooth record with complex data")
+    rep.part("records", per_class=per, built_by={h: sum(1 for r_ in recs if r_.get("built") == h) for h in sorted({r_.get("built") for r_ in recs if r_.get("built")})},
+             complex_smooth_records=sum(1 for r_ in recs if "outi" in r_),
+             get_smoother_records_not_counted_as_traces=per.get("getsm", 0))
     for idx, clauses in bad.items():
         r_ = recs[idx]
         if r_["fn"] == "smooth":
@@ -316,80 +542,122 @@ def check(pid, tier):
         elif r_["fn"] == "axis":
             key = "AbstractSmoother.__call__:" + "+".join(sorted(clauses))
         else:
-            key = "get_smoother:wrong_class"
-        found.add(key, dict(record=r_, failing_clauses=clauses, how="recorded real outputs (out = value * D) evaluated by TLC with ResultAlgRec.tla"))
+            key = "get_smoother:returned_smoother_acts_wrongly"
+        found.add(key, dict(record=r_, call=aux.get(idx), failing_clauses=clauses, how="recorded real outputs (out = value * D) evaluated by TLC with ResultAlgRec.tla"))
     rep.sample(recs[0])
+    found.flush(rep)
     # binding self-test
-    cor = copy.deepcopy([r_ for r_ in recs if r_["fn"] == "axis"][:1])
-    cor[0]["sx"][0] += 1
-    _, b2 = ftable.validate_records("ResultAlgRec.tla", REC_CFG, cor, "c17_selftest")
-    if 0 not in b2 or "axis_equals_spec" not in b2[0]:
-        raise MachineryError("binding self-test failed: corrupted smoother record accepted")
-    rep.part("binding_selftest", corrupted_record_rejected=b2[0])
+    if exact:
+        cor = copy.deepcopy([r_ for r_ in recs if r_["fn"] == "axis"][:1] + [r_ for r_ in recs if r_["fn"] == "smooth"][:1])
+        cor[0]["sx"][0] += 1
+        cor[1]["out"][0] += 1
+        _, b2 = ftable.validate_records("ResultAlgRec.tla", REC_CFG, cor, runs.name("c17_selftest"), timeout=TLC_TIMEOUT)
+        if "axis_equals_spec" not in b2.get(0, []) or "smooth_equals_spec" not in b2.get(1, []):
+            raise MachineryError("binding self-test failed: corrupted smoother record accepted")
+        rep.part("binding_selftest", corrupted_records_rejected={"axis": b2[0], "smooth": b2[1]})
 
-    # ---------------- numeric_only: the real Fermi-Dirac / Gaussian smoothers against the specified operator with their own kernels
-    nnum, numdev = 0, 0.0
+    # ---------------- numeric_only: the real Fermi-Dirac / Gaussian smoothers as black boxes (response matrix)
+    nnum, numdev, smtdev, smt_seen = 0, 0.0, 0.0, 0
+    NTOL = TOL * 10
     for trial in range(300 if thorough else 60):
         ne = rng.choice([2, 3, 5, 11, 30])
         e0, de = rng.uniform(-2, 2), rng.choice([0.01, 0.05, 0.1, 0.25])
         energy = e0 + de * np.arange(ne)
-        if rng.random() < 0.5:
-            sm = FermiDiracSmoother(energy, rng.choice([30., 100., 300., 1000., 3000.]))
-        else:
-            sm = GaussianSmoother(energy, rng.choice([0.004, 0.02, 0.06, 0.2, 1.0]))
-        if len(sm.smt) != 2 * sm.NE1 + 1:
-            found.add(type(sm).__name__ + ":kernel_length", dict(NE1=int(sm.NE1), len_smt=len(sm.smt)))
-            continue
+        fd = rng.random() < 0.5
+        par = rng.choice([30., 100., 300., 1000., 3000.]) if fd else rng.choice([0.004, 0.02, 0.06, 0.2, 1.0])
         other = rng.choice([(), (2,), (3,), (2, 3)])
         pos = rng.randint(0, len(other))
         fs = other[:pos] + (ne,) + other[pos:]
         A = nprng.integers(-8, 9, size=fs).astype(float)
         B = nprng.integers(-8, 9, size=fs).astype(float)
-        exp = RA.smooth_axis_py(list(sm.smt), fs, A, pos)
-        got = sm(A, axis=pos)
-        devs = dict(equals_spec=np.abs(got - exp).max(),
-                    linear=np.abs(sm(A + 2 * B, axis=pos) - (got + 2 * sm(B, axis=pos))).max(),
-                    constant=np.abs(sm(np.full(fs, 3.0), axis=pos) - 3.0).max())
-        if len(fs) > 1:    # along the axis only: each line on its own
-            idx = tuple(rng.randrange(n) if ax_ != pos else slice(None) for ax_, n in enumerate(fs))
-            devs["along_axis"] = np.abs(got[idx] - sm(A[idx], axis=0)).max()
+        det = dict(numeric_only=True, smoother="FermiDiracSmoother" if fd else "GaussianSmoother", energy=energy.tolist(), parameter=par, full_shape=fs,
+                   axis=pos, A=A.reshape(-1).tolist())
+        ok, sm = found.call("smoother constructor", det, lambda: (FermiDiracSmoother if fd else GaussianSmoother)(energy, par))
+        if not ok:
+            continue
+        ok, M = found.call("smoother(one-hot arrays)", det, lambda: np.asarray(RA.response_matrix(sm, ne)))
+        if not ok:
+            continue
         nnum += 1
-        rep.case(("numeric", trial), nontrivial=sm.NE1 > 0)
+        rep.case(("numeric", trial), nontrivial=not np.array_equal(M, np.eye(ne)))
+        if M.shape != (ne, ne) or not np.all(np.isfinite(M)):
+            found.add(f"{det['smoother']}.__call__:response_not_finite", dict(det, response=str(M)[:300]))
+            continue
+        ok, outs = found.call("smoother(A, axis)", det, lambda: [np.asarray(sm(A, axis=pos)), np.asarray(sm(A + 1j * B, axis=pos)),
+                                                                  np.asarray(sm(np.full(fs, 3.0), axis=pos))])
+        if not ok:
+            continue
+        devs = dict(constant_rows=float(np.abs(M.sum(axis=1) - 1).max()),
+                    constant=dev_of(outs[2], np.full(fs, 3.0)),
+                    linear_along_axis=dev_of(outs[0], apply_matrix(M, A, pos)),
+                    complex_data=dev_of(outs[1], apply_matrix(M, A, pos) + 1j * apply_matrix(M, B, pos)))
         for name, d in devs.items():
             numdev = max(numdev, float(d) if d < 1 else 0.0)
-            if d > TOL * 10:
-                found.add(f"{type(sm).__name__}.__call__:{name}", dict(energy=energy.tolist(), smear=float(sm.smear), NE1=int(sm.NE1), full_shape=fs, axis=pos,
-                                                                        A=A.reshape(-1).tolist(), deviation=float(d)))
+            if d > NTOL:
+                found.add(f"{det['smoother']}.__call__:{name}", dict(det, deviation=float(d)))
+        # information only: the cut-and-renormalise formula of the specification with the smoother's own kernel array (private)
+        try:
+            smt = np.asarray(sm.smt, dtype=float)
+            if len(smt) == 2 * int(sm.NE1) + 1:
+                smt_seen += 1
+                smtdev = max(smtdev, dev_of(outs[0], RA.smooth_axis_py(list(smt), fs, A, pos)))
+        except Exception:
+            skipped["smoother.smt/NE1"] = "not readable: the comparison with the specified formula fed with the smoother's own kernel is skipped"
     # a real two-axis result with a Fermi-Dirac and a Gaussian smoother
     EnergyResult, _, _, _, ps = RA.wb()
     for trial in range(20 if thorough else 6):
         n1, n2 = rng.randint(2, 6), rng.randint(2, 6)
         E1, E2 = 0.1 * np.arange(n1), 0.05 * np.arange(n2)
-        s1, s2 = get_smoother(E1, rng.choice([300., 1200.]), "Fermi-Dirac"), get_smoother(E2, rng.choice([0.03, 0.08]), "Gaussian")
+        p1, p2 = rng.choice([300., 1200.]), rng.choice([0.03, 0.08])
         rank = rng.choice([0, 1])
         fs = (n1, n2) + (3,) * rank
         A = nprng.integers(-8, 9, size=fs).astype(float)
-        res = EnergyResult([E1, E2], A, smoothers=[s1, s2], transformTR=ps.Transform(), transformInv=ps.Transform(), rank=rank)
-        exp = RA.smooth_axis_py(list(s1.smt), fs, RA.smooth_axis_py(list(s2.smt), fs, A, 1), 0)
-        got = np.asarray(res.dataSmooth)
+        if trial % 2:
+            A = A + 1j * nprng.integers(-8, 9, size=fs)
+        det = dict(numeric_only=True, E1=E1.tolist(), E2=E2.tolist(), smoothers=[f"get_smoother(E1, {p1}, 'Fermi-Dirac')", f"get_smoother(E2, {p2}, 'Gaussian')"],
+                   rank=rank, data=[str(v) for v in A.reshape(-1)])
+
+        def two_axes():
+            s1, s2 = get_smoother(E1, p1, "Fermi-Dirac"), get_smoother(E2, p2, "Gaussian")
+            M1, M2 = np.asarray(RA.response_matrix(s1, n1)), np.asarray(RA.response_matrix(s2, n2))
+            res = EnergyResult([E1, E2], A.copy(), smoothers=[s1, s2], transformTR=ps.Transform(), transformInv=ps.Transform(), rank=rank)
+            return M1, M2, np.asarray(res.dataSmooth)
+        ok, trip = found.call("EnergyResult.dataSmooth with get_smoother smoothers", det, two_axes)
+        if not ok:
+            continue
+        M1, M2, got = trip
         nnum += 1
         rep.case(("numeric2", trial))
-        d = float(np.abs(got - exp).max())
-        if d > TOL * 10:
-            only0 = RA.smooth_axis_py(list(s1.smt), fs, A, 0)
-            key = "only_the_axis0_smoother_applied" if np.abs(got - only0).max() <= TOL * 10 else "wrong_values"
-            found.add("EnergyResult.dataSmooth:" + key, dict(numeric_only=True, E1=E1.tolist(), E2=E2.tolist(), smoothers=[str(s1), str(s2)], rank=rank,
-                                                             data=A.reshape(-1).tolist(), deviation=d))
+        exp = apply_matrix(M1, apply_matrix(M2, A, 1), 0)
+        d = dev_of(got, exp)
+        if d > NTOL:
+            key = "only_the_axis0_smoother_applied" if dev_of(got, apply_matrix(M1, A, 0)) <= NTOL else "wrong_values"
+            found.add("EnergyResult.dataSmooth:" + key, dict(det, deviation=d))
         else:
             numdev = max(numdev, d)
-    rep.part("numeric_only", cases=nnum, tolerance=TOL * 10, max_deviation_observed=numdev,
-             what="FermiDiracSmoother / GaussianSmoother __call__ vs SmoothAxis with their own smt; linear, constant, along-axis; two-axis dataSmooth")
-    # observation, outside the specified domain (float data): integer-typed arrays are truncated by res = zeros(dtype=A.dtype)
-    try:
-        o = RA.int_kernel_smoother([1, 1, 1], 3)(np.array([0, 1, 0]), axis=0)
-        rep.part("observations", smoother_on_integer_dtype_array=f"returns {o.tolist()} (dtype {o.dtype}); exact value [1/2, 1/3, 1/2]")
-    except Exception as ex:
-        rep.part("observations", smoother_on_integer_dtype_array=f"raises {type(ex).__name__}")
+    rep.part("numeric_only", cases=nnum, tolerance=NTOL, max_deviation_observed=numdev,
+             what="FermiDiracSmoother / GaussianSmoother as black boxes: response matrix M[:, j] = sm(e_j); rows of M sum to 1, constants preserved, "
+                  "sm(A, axis) = M along the axis (real and complex A), two-axis dataSmooth = M1, M2 applied. The kernels themselves are not checked.",
+             information_only=dict(cases_with_readable_smt=smt_seen, max_deviation_from_specified_formula_with_own_smt=smtdev))
 
+    # ---------------- observations, outside the specified domain
+    def tell(name, f):
+        try:
+            rep.part("observations", **{name: f()})
+        except Exception as ex:
+            rep.part("observations", **{name: f"raises {type(ex).__name__}: {ex}"})
+    if exact:
+        # float / complex data only: integer-typed arrays are truncated by res = zeros(dtype=A.dtype)
+        tell("smoother_on_integer_dtype_array", lambda: (lambda o: f"returns {o.tolist()} (dtype {o.dtype}); exact value [1/2, 1/3, 1/2]")(
+            RA.int_kernel_smoother([1, 1, 1], 3)(np.array([0, 1, 0]), axis=0)))
+    # AscendingGrid: a descending equidistant grid
+    with np.errstate(all="ignore"):
+      tell("descending_energy_grid", lambda: (lambda o: f"get_smoother(E[::-1], 0.1, 'Gaussian')([0,1,0,0]) returns {np.asarray(o).tolist()}")(
+        get_smoother((0.1 * np.arange(4))[::-1].copy(), 0.1, "Gaussian")(np.array([0., 1., 0., 0.]))))
+    desc_recs = [r_ for r_ in recs if r_["fn"] == "getsm" and r_["dEsign"] < 0]
+    if desc_recs:
+        rep.part("observations", descending_grid_records={g: sum(1 for r_ in desc_recs if r_["got"] == g) for g in sorted({r_["got"] for r_ in desc_recs})})
+    if skipped:
+        rep.part("skipped_private", **skipped)
     found.flush(rep)
     return rep.finish()
